@@ -16,6 +16,10 @@
      int   `as` int   wraps                          (both profiles)
      try_into/try_from  checked                      (both profiles)
      `+` `-` on u16/i16/u32   panics in a debug build, wraps in a release build
+   The model is of the tree WITH the C19 repairs (work/patches/c19-*.diff: checked
+   advance width, checked outline coordinates / successive differences / component
+   offsets, point-count limit, checked top side bearing, WidthClass without the u16
+   subtraction); the sites that are left as known findings still saturate.
    Executable definitions only; proofs are in Proofs*.v. *)
 From Coq Require Import List ZArith QArith Qround Qabs Bool.
 Import ListNotations.
@@ -74,6 +78,7 @@ Definition sub_u16 (p : profile) (a b : Z) : outcome Z := arith fits_u16 wrap_u1
 Definition add_u32 (p : profile) (a b : Z) : outcome Z := arith fits_u32 wrap_u32 p (a + b).
 (* u16::try_from(x) mapped to Error::OutOfBounds *)
 Definition try_u16 (z : Z) : outcome Z := if fits_u16 z then Emit z else Reject.
+Definition try_i16 (z : Z) : outcome Z := if fits_i16 z then Emit z else Reject.
 (* x.try_into().unwrap() *)
 Definition unwrap_u16 (z : Z) : outcome Z := if fits_u16 z then Emit z else Panic.
 
@@ -143,16 +148,34 @@ Inductive glyf_out :=
 
 Definition zlen {A} (l : list A) : Z := Z.of_nat (length l).
 
-(* the glyf entry of an outline glyph: points are rounded (saturating), then
-   SimpleGlyph::write_into runs in the Glyf job *)
+(* fontbe glyphs.rs check_fits_i16 on the points of the paths *)
+Definition pt_fitsb (p : pt) : bool := fits_i16 (ot_round (fst p)) && fits_i16 (ot_round (snd p)).
+Definition coords_fitb (cs : list contour) : bool := forallb (forallb pt_fitsb) cs.
+(* fontbe glyphs.rs check_point_deltas_fit_i16: every step, the first one from 0 *)
+Fixpoint diffs_fitb (last : Z) (l : list Z) : bool :=
+  match l with [] => true | x :: t => fits_i16 (x - last) && diffs_fitb x t end.
+
+Definition has_empty_contour (cs : list contour) : bool := existsb (fun c => zlen c =? 0) cs.
+
+(* The glyf entry of an outline glyph.  GlyphWork::exec first refuses what glyf cannot
+   hold (Error::OutOfBounds): a coordinate whose rounding does not fit i16
+   (check_path_fits_i16), a step between successive points that does not fit i16
+   (check_point_deltas_fit_i16), more than 65535 points (check_num_points).  Then the
+   points are rounded and SimpleGlyph::write_into runs in the Glyf job, with its narrow
+   arithmetic unchanged. *)
 Definition simple_glyph (p : profile) (cs : list contour) : outcome glyf_out :=
   match cs with
   | [] => Emit GEmpty
   | _ =>
+      let pts := glyf_points cs in
+      if negb (coords_fitb cs) then Reject
+      else if negb (diffs_fitb 0 (map fst pts) && diffs_fitb 0 (map snd pts)) then Reject
+      (* assert!(!contour.is_empty()) *)
+      else if has_empty_contour cs then Panic
+      else if 65535 <? zlen pts then Reject
       (* assert!(self.contours.len() < i16::MAX as usize) *)
-      if 32767 <=? zlen cs then Panic
+      else if 32767 <=? zlen cs then Panic
       else
-        let pts := glyf_points cs in
         ends <- end_pts p 0 (map (fun c => zlen c) cs) ;;
         dx <- deltas p 0 (map fst pts) ;;
         dy <- deltas p 0 (map snd pts) ;;
@@ -180,6 +203,10 @@ Definition aff_2x2 (t : affine) : list Q := let '(a, b, c, d, _, _) := t in [a; 
 (* fontir ir.rs has_overflowing_2x2_transforms: !(-2.0..=2.0).contains(value) *)
 Definition in_2x2_range (q : Q) : bool := Qle_bool (-2) q && Qle_bool q 2.
 Definition overflows_2x2 (t : affine) : bool := negb (forallb in_2x2_range (aff_2x2 t)).
+
+(* fontbe glyphs.rs create_composite: check_fits_i16 on the offsets *)
+Definition offset_fitsb (ct : Z * affine) : bool :=
+  let '(_, _, _, _, e, f) := snd ct in fits_i16 (ot_round e) && fits_i16 (ot_round f).
 
 (* fontbe glyphs.rs create_component_ref_gid *)
 Definition emit_component (gid : Z) (t : affine) : comp_out :=
@@ -257,7 +284,8 @@ Definition build_glyph (p : profile) (glyphs : list glyph_src) (g : glyph_src) :
   | SrcComposite _ _ comps =>
       if existsb (fun ct => overflows_2x2 (snd ct)) comps
       then simple_glyph p (decompose glyphs comps)
-      else Emit (emit_composite glyphs comps)
+      else if forallb offset_fitsb comps then Emit (emit_composite glyphs comps)
+      else Reject
   end.
 
 Definition glyf_bbox (g : glyf_out) : option bbox :=
@@ -291,15 +319,17 @@ Definition metrics_of (rows : list mrow) : metrics :=
      m_min_second := fold_left omin (map (fun b => sat_i16 (fst (fst b) - snd (fst b) - snd b)) (boxed rows)) None;
      m_max_extent := fold_left omax (map (fun b => sat_i16 (snd (fst b) + snd b)) (boxed rows)) None |}.
 
-(* horizontal: advance = width.ot_round() as u16, side bearing = xMin, bounds = xMax - xMin (i32) *)
-Definition hrow (gg : glyph_src * glyf_out) : mrow :=
+(* horizontal: advance = advance_width(width) (an error unless the rounded width fits
+   u16), side bearing = xMin, bounds = xMax - xMin (i32) *)
+Definition hrow (gg : glyph_src * glyf_out) : outcome mrow :=
   let '(g, o) := gg in
+  adv <- try_u16 (ot_round (g_adv g)) ;;
   match glyf_bbox o with
-  | None => (ot_round_u16 (g_adv g), 0, None)
-  | Some (x0, _, x1, _) => (ot_round_u16 (g_adv g), x0, Some (x1 - x0))
+  | None => Emit (adv, 0, None)
+  | Some (x0, _, x1, _) => Emit (adv, x0, Some (x1 - x0))
   end.
-Definition hmetrics (glyphs : list glyph_src) (glyf : list glyf_out) : metrics :=
-  metrics_of (map hrow (combine glyphs glyf)).
+Definition hmetrics (glyphs : list glyph_src) (glyf : list glyf_out) : outcome metrics :=
+  rows <- mapM hrow (combine glyphs glyf) ;; Emit (metrics_of rows).
 
 (* MetricsBuilder::build: the trailing run of equal advances keeps one long metric *)
 Fixpoint trailing_run (last : Z) (advs_rev : list Z) : Z :=
@@ -359,13 +389,13 @@ Definition osome {A} (l : list (option A)) : list A :=
 
 (* ---- vmtx ---------------------------------------------------------------------------- *)
 (* vertical_metrics.rs: advance = height.ot_round() as u16; side bearing =
-   vertical_origin - bbox.y_max, an i16 subtraction *)
+   top_side_bearing(vertical_origin, bbox.y_max), computed in i32 and checked *)
 Definition vmetrics (p : profile) (origin : Q) (glyphs : list glyph_src) (glyf : list glyf_out)
   : outcome (list (Z * Z)) :=
   mapM (fun gg =>
     let '(g, o) := gg in
     let ymax := match glyf_bbox o with Some (_, _, _, y1) => y1 | None => 0 end in
-    tsb <- sub_i16 p (ot_round_i16 origin) ymax ;;
+    tsb <- try_i16 (ot_round_i16 origin - ymax) ;;
     Emit (ot_round_u16 (g_height g), tsb)) (combine glyphs glyf).
 
 (* ---- GPOS values: features.rs resolve_variable_metric (one master) ------------------- *)
@@ -405,7 +435,7 @@ Definition head_bbox (glyf : list glyf_out) : bbox :=
 Definition build (p : profile) (s : src) : outcome font :=
   let glyphs := s_glyphs s in
   glyf <- mapM (build_glyph p glyphs) glyphs ;;
-  let m := hmetrics glyphs glyf in
+  m <- hmetrics glyphs glyf ;;
   nlong <- try_u16 (long_len (map fst (m_long m))) ;;
   climits <- mapM (composite_limits p glyf) glyf ;;
   ng <- unwrap_u16 (zlen glyphs) ;;
@@ -453,12 +483,24 @@ Definition nested_transforms (n : nested) : list affine :=
   match n with NLeaf _ t => [t] | NNode t inner => t :: map snd inner end.
 Definition flatten_glyph (l : list nested) : list (Z * affine) :=
   flat_map (fun n => match n with NLeaf g t => [(g, t)] | NNode t inner => flatten_component t inner end) l.
-(* a glyph none of whose source transforms overflows stays a composite; after
-   flattening its records are written without a second look at the range *)
+(* BEFORE /repo 101951c: a glyph none of whose source transforms overflows stays a
+   composite; after flattening its records were written without a second look at the
+   range.  Kept for the refutation that explains the key
+   glyph.rs:flatten_glyph.transform:saturates. *)
 Definition build_flattened (p : profile) (glyphs : list glyph_src) (l : list nested) : outcome glyf_out :=
   match flatten_glyph l with
   | [] => Emit GEmpty
-  | comps => Emit (emit_composite glyphs comps)
+  | comps => if forallb offset_fitsb comps then Emit (emit_composite glyphs comps) else Reject
+  end.
+(* the code as it is (/repo 101951c): flatten_glyph repeats the range test after
+   flattening; a glyph whose flattened transforms leave [-2, 2] is decomposed like any
+   other *)
+Definition build_flattened_repaired (p : profile) (glyphs : list glyph_src) (l : list nested) : outcome glyf_out :=
+  match flatten_glyph l with
+  | [] => Emit GEmpty
+  | comps =>
+      if existsb (fun ct => overflows_2x2 (snd ct)) comps then simple_glyph p (decompose glyphs comps)
+      else if forallb offset_fitsb comps then Emit (emit_composite glyphs comps) else Reject
   end.
 
 (* ---- variation deltas between two masters ----------------------------------------------- *)
@@ -471,5 +513,5 @@ Definition instance_at_master1 (m0 m1 : Z) : Z := m0 + delta_i16 m0 m1.
 
 (* ---- fontdrasil types.rs WidthClass::try_from(u16) ------------------------------------- *)
 Definition width_class (p : profile) (v : Z) : outcome Z :=
-  i <- sub_u16 p v 1 ;;
-  if i <? 9 then Emit (i + 1) else Reject.
+  (* value.checked_sub(1).and_then(|idx| all_values().get(idx)) *)
+  if (1 <=? v) && (v - 1 <? 9) then Emit v else Reject.
